@@ -82,6 +82,8 @@ func init() {
 
 	props["C14"] = &PropSpec{ID: "C14",
 		Uses: []Use{
+			{Rule: "SIB-5", Filter: constructHas("cut short"), Floors: map[string]int{"line-loop": 2}},
+			{Rule: "CONC-3", Filter: role("collected", "verdict", "collector")},
 			{Rule: "ERR-1", Filter: and(lib, not(constructHas("os.", "io/fs.")))},
 			{Rule: "ERR-2", Floors: map[string]int{"sink": 4}},
 			{Rule: "ERR-3", Floors: map[string]int{"scan": 3}},
@@ -106,6 +108,8 @@ func init() {
 	}
 	props["C12"] = &PropSpec{ID: "C12",
 		Uses: []Use{
+			{Rule: "SIB-5", Filter: constructHas("token limit")},
+			{Rule: "PAIR-6", Filter: constructHas("closed only after")},
 			{Rule: "NIL-1", Floors: map[string]int{"handover-chan": 3, "handover-seq": 4, "handover-return": 1}},
 			{Rule: "NIL-3", Floors: map[string]int{"massive": 1, "iter": 1}},
 			{Rule: "NIL-4", Floors: map[string]int{"bce": 4, "assert": 3, "div": 1}},
@@ -120,6 +124,9 @@ func init() {
 	}
 	props["C10"] = &PropSpec{ID: "C10",
 		Uses: []Use{
+			{Rule: "TAB-7", Filter: and(role("wire"), constructHas("massive"))},
+			{Rule: "CONC-3", Filter: role("collector", "verdict", "collected")},
+			{Rule: "PAIR-6", Filter: funcHas("Pipeline")},
 			{Rule: "CONC-5", Floors: map[string]int{"critical": 1}},
 			{Rule: "CONC-6"},
 			{Rule: "CONC-4", Filter: role("access", "init")},
@@ -157,13 +164,14 @@ func init() {
 			{Rule: "TAB-6", Filter: and(func(o Ob) bool { return o.Role == "factory" || o.Role == "factory-args" || o.Role == "grower-flag" }, cfgIs("D")), Floors: map[string]int{"factory": 2, "grower-flag": 1}},
 			{Rule: "TAB-3", Filter: and(role("pred", "users", "ext"), cfgIs("D"))},
 			{Rule: "PAIR-5", Filter: cfgIs("D")},
-			{Rule: "SIB-3", Filter: and(role("report", "row"), cfgIs("D"), funcHas("olorize"))},
+			{Rule: "SIB-3", Filter: or(and(role("report", "row"), cfgIs("D"), funcHas("olorize")), and(role("format"), cfgIs("D")))},
 		},
 		Decides:    "no filesystem-mutating call is reachable from Output* (the CLI's dry-run route), and on every Mkdir* route every path to a creating call crosses the false side of a branch on the dry-run option; the CLI's mkdir reaches creation only on the false side of --dry-run and rejects stray arguments first; constructors and other shared code contain no filesystem mutation.",
 		NotDecided: "numeric equality of the reported counts with what a real run creates; colour escape sequences; 'rejects iff the real run rejects' beyond sharing the validation gate (C07).",
 	}
 	props["C06"] = &PropSpec{ID: "C06",
 		Uses: []Use{
+			{Rule: "SIB-6", Filter: and(role("shadow"), funcHas("kdirer"))},
 			{Rule: "EFF-6", Floors: map[string]int{"exists": 1}},
 			{Rule: "EFF-2", Floors: map[string]int{"site": 1}},
 			{Rule: "EFF-5", Filter: funcHas("Mkdirer")},
@@ -172,13 +180,16 @@ func init() {
 			{Rule: "TAB-3", Filter: cfgIs("D"), Floors: map[string]int{"pred": 1, "users": 1, "kind": 1}},
 			{Rule: "SIB-4", Filter: funcHas("makeDirectoriesAndFiles")},
 			{Rule: "GLOB-3", Filter: and(cfgIs("D"), or(constructHas("setPath"), role("structure")))},
-			{Rule: "C01-SEL", Filter: and(role("path"), cfgIs("D"))},
+			{Rule: "C01-SEL", Filter: and(role("path", "assembly-site"), cfgIs("D"))},
 		},
 		Decides:    "every creating call is dominated by the not-exists side of a test that stats every root and whose exists side yields the path-exists error; creation happens only in the mkdirer; created paths are Join(targetDir, node path); every filesystem error (MkdirAll, Create, Close) is returned; whether every root is tested before any root is created (not in massive mode: known finding F14).",
 		NotDecided: "the exact set of entries created for every forest, file-vs-directory choice as a value (see TAB-3 when claimed), OS refusals, pre-existing state other than roots.",
 	}
 	props["C08"] = &PropSpec{ID: "C08",
 		Uses: []Use{
+			{Rule: "SIB-6", Filter: and(role("shadow"), funcHas("erifier"))},
+			{Rule: "TAB-7", Filter: and(role("wire"), constructHas("strict"))},
+			{Rule: "CONC-6", Filter: and(role("learned"), funcHas("erif"))},
 			{Rule: "EFF-1", Filter: and(role("entry-readonly", "cli-readonly"), funcHas("Verify", "actionVerify"))},
 			{Rule: "EFF-4", Filter: and(role("gate", "encode"), funcHas("erify"))},
 			{Rule: "EFF-5", Filter: funcHas("Verifier")},
@@ -188,13 +199,14 @@ func init() {
 			{Rule: "CONC-4", Filter: and(role("access"), funcHas("erifier"))},
 			{Rule: "SIB-4", Filter: funcHas("fillDirsMarkdown")},
 			{Rule: "GLOB-3", Filter: and(cfgIs("D"), or(constructHas("setPath"), role("structure")))},
-			{Rule: "C01-SEL", Filter: and(role("path"), cfgIs("D"))},
+			{Rule: "C01-SEL", Filter: and(role("path", "assembly-site"), cfgIs("D"))},
 		},
 		Decides:    "verify never reaches a filesystem-mutating call; names are validated and paths assembled before verifying; looked-up paths are Join(targetDir, node path) like the mkdirer's; walk errors are returned.",
 		NotDecided: "soundness/completeness of the reported path sets for every directory state, the 'first root that differs' listing, map-iteration order of the report.",
 	}
 	props["C16"] = &PropSpec{ID: "C16",
 		Uses: []Use{
+			{Rule: "NIL-1", Filter: role("parent-deref")},
 			{Rule: "ERR-1", Filter: scope("cli")},
 			{Rule: "EFF-8", Floors: map[string]int{"stdout": 2, "writer": 1}},
 			{Rule: "EFF-1", Filter: role("cli-readonly")},
@@ -206,7 +218,10 @@ func init() {
 	}
 	props["C01"] = &PropSpec{ID: "C01",
 		Uses: []Use{
-			{Rule: "SIB-3", Filter: role("row", "fact"), Floors: map[string]int{"row": 2, "fact": 2}},
+			{Rule: "SIB-6", Filter: and(role("shadow"), funcHas("preader", "rower"))},
+			{Rule: "TAB-6", Filter: role("config-defaults"), Floors: map[string]int{"config-defaults": 1}},
+			{Rule: "TAB-7", Filter: and(role("wire"), constructHas("massive"))},
+			{Rule: "SIB-3", Filter: role("row", "fact", "format"), Floors: map[string]int{"row": 2, "fact": 2}},
 			{Rule: "C01-SEL", Floors: map[string]int{"select": 1, "walkup": 1, "last": 1, "path": 2}},
 			{Rule: "SIB-4", Filter: and(cfgIs("D"), not(role("fresh"))), Floors: map[string]int{"traversal": 5}},
 			{Rule: "PAIR-1", Floors: map[string]int{"insert": 1, "lookup": 1}},
@@ -224,6 +239,8 @@ func init() {
 	}
 	props["C02"] = &PropSpec{ID: "C02",
 		Uses: []Use{
+			{Rule: "CONC-3", Filter: role("collected"), Floors: map[string]int{"collected": 4}},
+			{Rule: "CONC-6", Filter: role("parser-scope")},
 			{Rule: "SIB-5", Floors: map[string]int{"line-loop": 14}},
 			{Rule: "PAIR-3", Floors: map[string]int{"attach": 1, "attach-caller": 1}},
 			{Rule: "TAB-1", Floors: map[string]int{"map": 2, "blank": 1}},
@@ -237,6 +254,8 @@ func init() {
 	}
 	props["C03"] = &PropSpec{ID: "C03",
 		Uses: []Use{
+			{Rule: "C01-SEL", Filter: role("assembly-site")},
+			{Rule: "SIB-6", Filter: role("pair"), Floors: map[string]int{"pair": 2}},
 			{Rule: "PAIR-4", Floors: map[string]int{"validate-first": 5, "sentinel": 1}},
 			{Rule: "SIB-1", Floors: map[string]int{"alias": 5}},
 			{Rule: "PAIR-1", Filter: funcHas("Add", "findChildByText")},
@@ -265,13 +284,14 @@ func init() {
 	}
 	props["C05"] = &PropSpec{ID: "C05",
 		Uses: []Use{
+			{Rule: "SIB-6", Filter: and(role("shadow"), funcHas("alker"))},
 			{Rule: "SIB-3", Filter: and(role("accessor", "fact"), cfgIs("D")), Floors: map[string]int{"accessor": 3}},
 			{Rule: "ERR-4", Floors: map[string]int{"callback": 4}},
 			{Rule: "PAIR-7", Floors: map[string]int{"yield": 3, "yield-exempt": 2}},
 			{Rule: "SIB-4", Filter: funcHas("walkNode", "assemble"), Floors: map[string]int{"traversal": 2}},
 			{Rule: "NIL-3", Filter: role("iter")},
 			{Rule: "PAIR-4", Filter: role("lazy")},
-			{Rule: "C01-SEL", Filter: and(role("path"), cfgIs("D"))},
+			{Rule: "C01-SEL", Filter: and(role("path", "assembly-site", "select", "walkup", "last"), cfgIs("D"))},
 			{Rule: "GLOB-3", Filter: cfgIs("D")},
 			{Rule: "GLOB-1", Filter: and(role("sink"), cfgIs("D"), funcHas("alk"))},
 			{Rule: "SIB-5", Filter: and(cfgIs("D"), funcHas("rootGeneratorSimple"))},
@@ -283,6 +303,7 @@ func init() {
 	}
 	props["C13"] = &PropSpec{ID: "C13",
 		Uses: []Use{
+			{Rule: "TAB-3", Filter: role("ext")},
 			{Rule: "GLOB-1", Floors: map[string]int{"global": 4, "summary": 1}},
 			{Rule: "GLOB-3", Floors: map[string]int{"accumulate": 4}},
 			{Rule: "PAIR-4", Filter: role("lazy"), Floors: map[string]int{"lazy": 1}},
@@ -305,6 +326,7 @@ func init() {
 	}
 	props["C17"] = &PropSpec{ID: "C17",
 		Uses: []Use{
+			{Rule: "GLOB-1", Filter: cfgIs("W")},
 			{Rule: "SIB-2", Floors: map[string]int{"shared": 10, "partition": 1, "reject-set": 1}},
 			{Rule: "SIB-3", Filter: or(cfgIs("W"), role("report")), Floors: map[string]int{"row": 2, "report": 3}},
 			{Rule: "SIB-4", Filter: cfgIs("W"), Floors: map[string]int{"traversal": 2}},
